@@ -30,8 +30,8 @@ ASSUMPTIONS = ["sys.monitoring delivers every LINE/CALL event of library code ob
 def plan(tier, seed):
     q = tier == "quick"
     specs = []
-    for i in range(4 if q else 16):
-        specs.append({"kind": "repodata", "docs": 1 if q else 4, "target": "api" if i % 2 == 0 else "cli", "big": (not q) and i % 4 == 0})
+    for i in range(6 if q else 24):
+        specs.append({"kind": "repodata", "docs": 2 if q else 8, "target": "api" if i % 2 == 0 else "cli", "big": (not q) and i % 4 == 0})
     specs.append({"kind": "gpg", "target": "api", "stub": True, "docs": 1 if q else 4})
     specs.append({"kind": "gpg", "target": "cli", "stub": True, "docs": 1 if q else 4})
     specs.append({"kind": "gpg", "target": "api", "stub": False, "docs": 1 if q else 3, "shim": True})
